@@ -783,6 +783,14 @@ func C11(items []Item, pre Predef) (vs []V, checked int) {
 		cycle    int
 	}
 	var injs []inj
+	type ackInj struct {
+		it    Item
+		typ   byte // MQTT-SN type expected
+		mid   uint16
+		cycle int
+	}
+	var acks []ackInj
+	ackSeen := map[[3]int]bool{} // (sn type, msg id) delivered to the client, keyed with the cycle it was seen in
 	m := newTopicModel(pre)
 	firstDelivery := map[string]Item{}
 	deliveries := map[string]int{} // non-DUP copies
@@ -845,6 +853,8 @@ func C11(items []Item, pre Predef) (vs []V, checked int) {
 				if st == stWaking {
 					st = stAsleep
 				}
+			case snref.PUBACK, snref.PUBREC, snref.PUBCOMP, snref.SUBACK, snref.UNSUBACK:
+				ackSeen[[3]int{int(p.Type), int(p.MsgID), 0}] = true
 			case snref.PUBLISH:
 				k := string(p.Data)
 				copies[k]++
@@ -861,6 +871,34 @@ func C11(items []Item, pre Predef) (vs []V, checked int) {
 				_, _, ok := lookupForBroker(m, it.MQ.Topic)
 				injs = append(injs, inj{it, !ok, cycle})
 			}
+		case it.Kind == world.MQIn && it.MQ != nil && st == stAsleep:
+			// acknowledgement of an exchange the client started before it fell asleep
+			var ty byte
+			switch it.MQ.Type {
+			case mqttref.PUBACK:
+				ty = snref.PUBACK
+			case mqttref.PUBREC:
+				ty = snref.PUBREC
+			case mqttref.PUBCOMP:
+				ty = snref.PUBCOMP
+			case mqttref.SUBACK:
+				ty = snref.SUBACK
+			case mqttref.UNSUBACK:
+				ty = snref.UNSUBACK
+			}
+			if ty != 0 {
+				delete(ackSeen, [3]int{int(ty), int(it.MQ.MsgID), 0})
+				acks = append(acks, ackInj{it, ty, it.MQ.MsgID, cycle})
+			}
+		}
+	}
+	for _, a := range acks {
+		if cycle-a.cycle < 1 {
+			continue
+		}
+		checked++
+		if !ackSeen[[3]int{int(a.typ), int(a.mid), 0}] {
+			vs = append(vs, V{"C11", "buffered-ack-lost|" + snref.TypeName(a.typ), fmt.Sprintf("broker %s arrived while the client was asleep (cycle %d) and no %s(%d) was delivered although the client woke up %d more time(s)", a.it.MQ, a.cycle+1, snref.TypeName(a.typ), a.mid, cycle-a.cycle), a.it.Seq})
 		}
 	}
 	// delivery of what was injected while asleep
